@@ -11,7 +11,7 @@ import sessioncheck
 import universe
 
 INFO = {
-    'proof_files': ['Proofs/ColorProofs.v', 'Proofs/ShowProofs.v'] + ['Proofs/SessionColor%s.v' % c for c in 'ABJCDEFGHIKL'] + ['Proofs/PastedCommands.v', 'Proofs/CommandFuel.v', 'Proofs/HelpProofs.v'],
+    'proof_files': ['Proofs/ColorProofs.v', 'Proofs/ShowProofs.v'] + ['Proofs/SessionColor%s.v' % c for c in 'ABJCDEFGHIKL'] + ['Proofs/PastedCommands.v', 'Proofs/CommandFuel.v', 'Proofs/HelpProofs.v', 'Proofs/HelpShipped.v'],
     'assumptions': [
         'theorems are about WD.Color (color/no_color) and WD.Show (message lines); tied to core/util.py and every __str__/notice by (1) the property\'s own relation checked directly on /repo: each generated session (all argument kinds, labels, destroyed annotations, unresolved objects, passthrough lines, list/filter/breakpoint/matcher/connection/help commands, errors) is run with --color and with --no-color and compared line by line after stripping, (2) the model\'s coloured output compared with /repo\'s, (3) coloured text pasted back as matcher / command',
         'the whole-session statement is proved for the model (C17_session: every event, every command, both modes, no hypothesis; C17_off_no_escape; C17_session_exact over the regenerated shipped protocol data); the model is tied to /repo by the three explorations above',
